@@ -94,7 +94,7 @@ def TaskDecl.flagToks (d : TaskDecl) : List Tok :=
 
 theorem mkCtx_shape {d : TaskDecl} {c : Ctx} (h : d.ctx? = .ok c) :
     c = (Ctx.empty (some d.name) []).pushAll d.args := by
-  have := (mkCtx_ok_iff.1 h).2
+  have := (mkCtx_ok_iff.1 h).2.2
   unfold Ctx.ofSpecsChecked at this
   exact (foldChecked_ok_iff.1 this).2
 
@@ -115,7 +115,7 @@ theorem mkCtx_arg {d : TaskDecl} {c : Ctx} (h : d.ctx? = .ok c) {j : Nat} {a : A
 
 theorem mkCtx_flag {d : TaskDecl} {c : Ctx} (hg : d.Good) (h : d.ctx? = .ok c) {j : Nat} {a : ArgSpec}
     (hj : d.args[j]? = some a) {n : Tok} (hn : n ∈ a.names) : assoc? (toFlag n) c.flags = some j :=
-  (flag_reaches_its_argument hg.noBlank h hj hn).1
+  (flag_reaches_its_argument hg.ident.nonEmpty h hj hn).1
 
 theorem mkCtx_keys {d : TaskDecl} {c : Ctx} (h : d.ctx? = .ok c) :
     c.flags.map Prod.fst ++ c.inverse.map Prod.fst = d.flagToks := by
